@@ -18,7 +18,18 @@ pub enum Fault {
     Eof,
 }
 
+/// a schedule may start with `p<N>`: the reader is handed over with its cursor at `N` (any `Read + Seek` the caller
+/// supplies may have been read from before); the rest is one entry per I/O call
+pub fn split_init_pos(s: &str) -> (u64, &str) {
+    if let Some(rest) = s.strip_prefix('p') {
+        let (num, tail) = match rest.split_once(',') { Some((a, b)) => (a, b), None => (rest, "-") };
+        return (num.parse().unwrap_or(0), tail);
+    }
+    (0, s)
+}
+
 pub fn parse_sched(s: &str) -> Vec<Fault> {
+    let (_, s) = split_init_pos(s);
     if s == "-" {
         return vec![];
     }
@@ -341,7 +352,7 @@ pub struct StreamRun {
 
 pub fn run_stream_spec<E: EndianParse>(sched: &str, ops: &str, file: &[u8]) -> StreamRun {
     let log = Rc::new(RefCell::new(Log::default()));
-    let rdr = FaultyReader { content: file.to_vec(), pos: 0, sched: parse_sched(sched).into(), log: log.clone() };
+    let rdr = FaultyReader { content: file.to_vec(), pos: split_init_pos(sched).0, sched: parse_sched(sched).into(), log: log.clone() };
     let before = crate::alloc_count::arm();
     let opened = ElfStream::<E, _>::open_stream(rdr);
     let mut parts = vec![];
